@@ -260,6 +260,9 @@ restart:
             }
             if (callback_rc != HTP_OK) {
                 htp_gzip_decompressor_end(drec);
+                // The refused output must not be delivered again.
+                drec->stream.next_out = drec->buffer;
+                drec->stream.avail_out = GZIP_BUF_SIZE;
                 return callback_rc;
             }
 
@@ -345,6 +348,9 @@ restart:
             }
             if (callback_rc != HTP_OK) {
                 htp_gzip_decompressor_end(drec);
+                // The refused output must not be delivered again.
+                drec->stream.avail_out = GZIP_BUF_SIZE;
+                drec->stream.next_out = drec->buffer;
                 return callback_rc;
             }
             drec->stream.avail_out = GZIP_BUF_SIZE;
